@@ -11,8 +11,10 @@ package main
 import (
 	"context"
 	"encoding/json"
+	"errors"
 	"fmt"
 	"os"
+	"runtime"
 	"sort"
 	"sync"
 	"time"
@@ -556,6 +558,105 @@ func runC05(c *Ctx) error {
 	for i := 0; i < n && !c.Rep.ShouldStop(); i++ {
 		c05Run(c, m, c05Gen(c.Rng))
 	}
+	c05Directed(c)
 	c05Free(c, free, c.N(4000, 60000))
 	return nil
+}
+
+// ---- directed cases from the defect hunt (notes/hunt/C05) -----------------------------------------------------------
+
+// c05Directed: legal calls must return also after another caller's mistake: a Shard value that cannot be a map key
+// (finding C05-2: the context's mutex stayed locked), a batch function that ends its goroutine (finding C05-3: the
+// other callers of the batch waited for ever).
+func c05Directed(c *Ctx) {
+	rep := c.Rep
+	// an unhashable shard, then an unrelated Func on the same batching context
+	{
+		cs := map[string]interface{}{"directed": "unhashable shard, then a legal Invoke on the same context"}
+		ctx := batch.WithBatching(context.Background())
+		bad := &batch.Func{
+			Many:  func(ctx context.Context, args []interface{}) ([]interface{}, error) { return args, nil },
+			Shard: func(arg interface{}) interface{} { return []int{1} },
+		}
+		good := &batch.Func{Many: func(ctx context.Context, args []interface{}) ([]interface{}, error) {
+			out := make([]interface{}, len(args))
+			for i, a := range args {
+				out[i] = c05F(a.(int))
+			}
+			return out, nil
+		}, WaitInterval: time.Millisecond}
+		func() {
+			defer func() { recover() }()
+			bad.Invoke(ctx, 1)
+		}()
+		done := make(chan interface{}, 1)
+		go func() {
+			v, err := good.Invoke(ctx, 7)
+			if err != nil {
+				done <- err
+			} else {
+				done <- v
+			}
+		}()
+		select {
+		case v := <-done:
+			if v != c05F(7) {
+				rep.Fail("impl_ne_spec", nil, cs, map[string]interface{}{"what": "the legal call returned something else than its own result", "got": fmt.Sprint(v)})
+			} else {
+				rep.Count("directed:unhashable_shard")
+				rep.Eval("directed|unhashable-shard", true, cs)
+			}
+		case <-patient(5 * time.Second):
+			rep.Fail("impl_ne_spec", nil, cs, map[string]interface{}{"what": "an Invoke with a legal argument did not return within 5 s after another call's Shard value had made the lookup panic"})
+		}
+	}
+	// a batch function that calls runtime.Goexit: the callers that joined the batch must get an error
+	{
+		cs := map[string]interface{}{"directed": "runtime.Goexit inside Many, three callers"}
+		ctx := batch.WithBatching(context.Background())
+		started := make(chan struct{})
+		f := &batch.Func{Many: func(ctx context.Context, args []interface{}) ([]interface{}, error) {
+			close(started)
+			runtime.Goexit()
+			return nil, nil
+		}, WaitInterval: 50 * time.Millisecond}
+		results := make(chan error, 3)
+		for i := 0; i < 3; i++ {
+			go func(i int) {
+				finished := false
+				defer func() {
+					if !finished {
+						results <- errors.New("goexit") // the caller that ran the batch: its goroutine ended
+					}
+				}()
+				_, err := f.Invoke(ctx, i)
+				finished = true
+				if err == nil {
+					err = errors.New("no error")
+				}
+				results <- err
+			}(i)
+		}
+		got := 0
+		timeout := patient(5 * time.Second)
+	wait:
+		for got < 3 {
+			select {
+			case err := <-results:
+				if err.Error() == "no error" {
+					rep.Fail("impl_ne_spec", nil, cs, map[string]interface{}{"what": "a caller of a batch whose function never returned got a result without an error"})
+					return
+				}
+				got++
+			case <-timeout:
+				break wait
+			}
+		}
+		if got < 3 {
+			rep.Fail("impl_ne_spec", nil, cs, map[string]interface{}{"what": fmt.Sprintf("%d of 3 callers of a batch whose function ended its goroutine did not return within 5 s", 3-got)})
+		} else {
+			rep.Count("directed:goexit_in_many")
+			rep.Eval("directed|goexit", true, cs)
+		}
+	}
 }
